@@ -168,3 +168,132 @@ def examined_position(an) -> Frac:
     if len(pos) != 1:
         raise Unknown(f"{len(pos)} different insert positions")
     return an["_pos"]
+
+
+# ---------------------------------------------------------------------------------------------------------------------------------
+# forward builder:  out = [L[0]] ; for cur in L[1:]: <append flat candles until cur follows> ; out.append(cur) ; [L[:] = out]
+
+
+class _BI(_FI):
+    """heap interpreter with fresh candles as objects with fields (so that a fill built from a fill can be evaluated)"""
+
+    def __init__(self, repo, mod, out_name):
+        super().__init__(repo, mod)
+        self.out_name = out_name
+        self.fresh = {}
+
+    def subscript(self, st, base, idx, node):
+        if isinstance(base, Obj) and base.kind == "list" and base.data == "OUT" and isinstance(idx, Num) and idx.f == -ONE:
+            return st.env.get("@tail", Obj("obj", "TAIL"))
+        return super().subscript(st, base, idx, node)
+
+    def attr(self, st, base, name, node):
+        if isinstance(base, Obj) and base.kind == "new" and base.data[0] == "Candle":
+            fields = dict(zip(["open", "high", "low", "close", "volume", "timestamp"], base.data[1]))
+            fields.update(dict(base.data[2]))
+            if name in fields:
+                return fields[name]
+            if name == "clean_values":
+                return Obj("emptydict")
+            return Opaque(f"field {name} of a fresh candle")
+        return super().attr(st, base, name, node)
+
+    def truth(self, v, st, node):
+        if isinstance(v, Obj) and v.kind == "list":
+            return ("nonempty", v.data)
+        return super().truth(v, st, node)
+
+    def call(self, st, node):
+        fn = node.func
+        if isinstance(fn, ast.Attribute) and fn.attr == "get" and isinstance(fn.value, ast.Attribute) and fn.value.attr == "clean_values" and len(node.args) == 2:
+            owner = self.expr(fn.value.value, st)
+            if isinstance(owner, Obj) and owner.kind == "new":
+                return self.expr(node.args[1], st)  # a fresh candle has no saved values: the default
+        return super().call(st, node)
+
+
+def analyse_builder(repo, fm):
+    """-> dict(kind='builder', ...) for the forward-pass form, or raises Unknown"""
+    fn = fm.node
+    params = [p for p in fm.params if p not in ("self", "cls")]
+    if len(params) < 2:
+        raise Unknown("signature")
+    lst, tfp = params[0], params[1]
+    fors = [n for n in fn.body if isinstance(n, ast.For)]
+    if len(fors) != 1 or any(isinstance(n, ast.While) for n in fn.body) or fors[0].orelse:
+        raise Unknown("not a single top-level for loop")
+    loop = fors[0]
+    pre = fn.body[: fn.body.index(loop)]
+    post = fn.body[fn.body.index(loop) + 1 :]
+    if not isinstance(loop.target, ast.Name):
+        raise Unknown("loop target")
+    cur = loop.target.id
+    # the output list and how it starts
+    out, start = None, None
+    for st in pre:
+        tgt = st.targets[0] if isinstance(st, ast.Assign) and len(st.targets) == 1 else st.target if isinstance(st, ast.AnnAssign) else None
+        val = getattr(st, "value", None)
+        if isinstance(tgt, ast.Name) and isinstance(val, ast.List):
+            if len(val.elts) == 1 and ast.unparse(val.elts[0]) == f"{lst}[0]":
+                out, start = tgt.id, "first"
+            elif not val.elts:
+                out, start = tgt.id, "empty"
+    if out is None:
+        raise Unknown("no output list built before the loop")
+    it_txt = ast.unparse(loop.iter).replace(" ", "")
+    if not ((start == "first" and it_txt == f"{lst}[1:]") or (start == "empty" and it_txt == lst)):
+        raise Unknown(f"output starts {start} but the loop runs over {it_txt}")
+    body = list(loop.body)
+    if not body or not (isinstance(body[-1], ast.Expr) and isinstance(body[-1].value, ast.Call) and ast.unparse(body[-1].value).replace(" ", "") == f"{out}.append({cur})"):
+        raise Unknown("the loop body does not end with out.append(current)")
+    inner = [n for n in body[:-1] if isinstance(n, ast.While)]
+    if len(inner) != 1 or any(isinstance(n, (ast.For, ast.While)) for st in body[:-1] for n in ast.walk(st) if n is not inner[0]):
+        raise Unknown("not exactly one inner while loop producing the fill candles")
+    w = inner[0]
+    before_w = body[: body.index(w)]
+    after_w = body[body.index(w) + 1 : -1]
+    it = _BI(repo, fm.module, out)
+    st0 = State()
+    TAIL = Obj("obj", "TAIL")
+    st0.env.update({"self": Obj("obj", "self"), lst: Obj("list", "L"), out: Obj("list", "OUT"), tfp: Num(TF), cur: Obj("obj", "cur"), "@tail": TAIL})
+    try:
+        outs = it.block(before_w, st0)
+    except Unmodelled as e:
+        raise Unknown(f"statements before the inner loop: {e}")
+    live = [s for s, o in outs if o is None]
+    if len(live) != 1:
+        raise Unknown("several ways to reach the inner loop")
+    s1 = live[0]
+    # locals that hold the tail / a fresh gap list
+    tailvars = [k for k, v in s1.env.items() if v == TAIL and k != "@tail"]
+    gaps = [k for k, v in s1.env.items() if isinstance(v, (Obj,)) and getattr(v, "kind", None) == "listlit"]
+    n0 = len(s1.facts)
+    try:
+        tests = it.cond_paths(w.test, s1.fork())
+    except Unmodelled as e:
+        raise Unknown(f"inner loop test: {e}")
+    res_paths = []
+    for truth, s2 in tests:
+        if not truth:
+            res_paths.append(dict(kind="exit", facts=list(s2.facts[n0:]), appended=[], env=s2.env))
+            continue
+        s2.effects = []
+        try:
+            bouts = it.block(w.body, s2)
+        except Unmodelled as e:
+            raise Unknown(f"inner loop body: {e}")
+        for s3, o in bouts:
+            kind = "next"
+            if o is not None:
+                v = o[1]
+                if isinstance(v, Obj) and v.kind == "break":
+                    kind = "exit"
+                elif isinstance(v, Obj) and v.kind == "continue":
+                    kind = "next"
+                else:
+                    raise Unknown("the inner loop is left by return / raise")
+            apps = [e for e in s3.effects if e[0] == "call" and e[2] in ("append", "insert", "extend")]
+            res_paths.append(dict(kind=kind, facts=list(s3.facts[n0:]), appended=apps, env=s3.env, heap=dict(s3.heap)))
+    if it.unmodelled:
+        raise Unknown(f"inner loop: {it.unmodelled[0][1]}")
+    return dict(kind="builder", paths=res_paths, tailvars=tailvars, out=out, cur=cur, lst=lst, start=start, loop=loop, inner=w, before=before_w, after=after_w, post=post, tail=TAIL)
